@@ -31,7 +31,7 @@ import logging  # noqa: E402
 logging.getLogger("delphin.ace").setLevel(logging.CRITICAL + 1)   # "Could not read output" chatter
 
 FAKE = os.path.join(os.path.dirname(os.path.abspath(__file__)), "standins", "fakeace.py")
-STEP_TIMEOUT = 8.0
+STEP_TIMEOUT = 6.0
 REFUSAL = "PyDelphin could not validate the input and refused to send it to ACE"
 BASE_TEXTS = ["incomplete output from ACE", ":error", ":p-input", ":p-tokens", ":results", ":chart", ":surface"]
 STD_KEYS = {"NOTES", "WARNINGS", "ERRORS", "run", "input", "surface", "results", "tokens", "keys", "task"}
@@ -525,14 +525,15 @@ def ok_text(front, idx, rng):
     if front == "parser":
         return rng.choice(["%s dogs bark", "  %s leading", "%s trailing  \t", "\t%s [ brackets ] too ", "%s"]) % tok
     return rng.choice(["[ LTOP: h0 %s [ x ] ]", "junk before [ %s ] and after", "[ %s ] tail", "  [ %s ]  ",
-                       "pre [ %s [ a ] [ b ] ]", "[%s]", "x ] [ %s ]"]) % tok
+                       "pre [ %s [ a ] [ b ] ]", "[%s]", "x ] [ %s ]", "junk [ %s [ a ] ] tail",
+                       "j [ [ b ] %s ] t"]) % tok
 
 
 class C19(Check):
     pid = "C19"
     level = "proof"
     quick_cases = 150
-    thorough_cases = 1500
+    thorough_cases = 1700
     search_budget = {"quick": 150, "thorough": 2000}
     rule = ("distinct (front end, protocol, per-input behaviour/cut/exit policy) sessions with at least one "
             "acceptable input")
@@ -954,6 +955,18 @@ class C19(Check):
                                                                        ex={"note": True, "warning": True, "error": True})],
                            exit_ok=6, runnote=(ci % 2 == 1)))
         cs.extend(regression_cases())
+        if tier == "thorough":
+            # every byte position of one answer per configuration
+            for front, tsdb, show in configs:
+                base = {"front": front, "tsdb": tsdb, "show": show}
+                probe = mk_item(1, front, "die", nres=2, ex={"note": True, "flags": 2, "pinput": True})
+                n = len(answer_text(base, probe))
+                for cut in range(n + 1):
+                    it = mk_item(1, front, "die", nres=2, ex={"note": True, "flags": 2, "pinput": True},
+                                 die=die_spec(delay_exit=20), cut=cut, sync=True)
+                    cs.append({"kind": "cut-sweep", "front": front, "tsdb": tsdb, "show": show, "runnote": True,
+                               "exit_ok": 0, "process_item": False,
+                               "items": [mk_item(0, front), it, mk_item(2, front)]})
         return cs
 
     def random_case(self, rng, tier):
@@ -1126,7 +1139,7 @@ def validate_cases(rng, n):
     alpha = ["[", "]", "[", "]", " ", "\t", "a", "b ", "x", "\x0b", "\r", " "]
     seen = set()
     fixed = ["", " ", "[]", "[ ]", "a[b]c", "[a", "a]", "][", "] [ ]", "[[]]", "[[]", "[]]", " [a] ", "x [a] [b]",
-             "[a] tail", "pre [a]", "pre [a] ", "\t[a]\t", "a", " a ", "[a][b]", "[ [ ] ] x", "x [ [ ] ]"]
+             "[a] tail", "pre [a]", "x [a [b] c] y", "x [[a] b] y", "pre [a] ", "\t[a]\t", "a", " a ", "[a][b]", "[ [ ] ] x", "x [ [ ] ]"]
     for s in fixed:
         for front in ("parser", "generator"):
             yield {"op": "validate", "front": front, "s": s}
